@@ -30,6 +30,9 @@ func init() {
 	})
 	reg("os.ReadFile", func(i *interpreter, fr *frame, args []value) value {
 		p := pathArg(args[0])
+		if msg := i.env.fsm().nameErr(p); msg != "" {
+			return tuple{[]value(nil), i.pathErr("open", p, msg, false)}
+		}
 		n := i.env.fsm().nodes[p]
 		if n == nil {
 			return tuple{[]value(nil), i.pathErr("open", p, "no such file or directory", true)}
